@@ -619,6 +619,11 @@ func (fg *FG) uninterpBin(x *ssa.BinOp, name string, a, b Val) {
 // arith binds the result of an integer operation applying the machine-integer model:
 // unsigned types narrower than 64 bits wrap (mod 2^n); 64-bit and signed arithmetic is mathematical.
 func (fg *FG) arith(x ssa.Value, e string) {
+	if bits, ok := isUnsigned(x.Type()); ok && bits == 64 && fg.c != nil && fg.c.Wrapping {
+		// contracts marked "wrapping": 64-bit unsigned arithmetic is modular
+		fg.bind(x, fmt.Sprintf("(mod %s %s)", e, pow2(64)))
+		return
+	}
 	if bits, ok := isUnsigned(x.Type()); ok && bits < 64 {
 		fg.bind(x, fmt.Sprintf("(mod %s %s)", e, pow2(bits)))
 		return
